@@ -48,14 +48,18 @@ class CountingLock:
 
 
 class Deployment:
-  def __init__(self, mode, db):
+  def __init__(self, mode, db, real=False):
     from vfw import svc
     from vizier._src.service import constants, pythia_service, vizier_server, vizier_service
     import datetime
     self.mode, self.db = mode, db
     self.env = svc.ScriptEnv()
     url = None if db == 'ram' else constants.SQL_MEMORY_URL
-    fac = svc.ScriptedFactory(self.env)
+    if real:      # the shipped algorithms (policies that keep state in the study and ask the service for trials by id)
+      from vizier._src.service import policy_factory
+      fac = svc.ScriptedFactory(self.env, fallback=policy_factory.DefaultPolicyFactory())
+    else:
+      fac = svc.ScriptedFactory(self.env)
     if mode == 'local':
       self.servicer = vizier_service.VizierServicer(database_url=url, early_stop_recycle_period=datetime.timedelta(seconds=3600))
       self.servicer.default_pythia_service = pythia_service.PythiaServicer(self.servicer, policy_factory=fac)
@@ -90,12 +94,12 @@ class Deployment:
       vizier_client._create_local_vizier_servicer = lambda: self.servicer
 
 
-def deployments(which):
+def deployments(which, real=False):
   out = []
   for mode, db in which:
-    k = (mode, db)
+    k = (mode, db, real)
     if k not in _DEPS or getattr(_DEPS[k], 'poisoned', False):
-      _DEPS[k] = Deployment(mode, db)
+      _DEPS[k] = Deployment(mode, db, real)
     out.append(_DEPS[k])
   return out
 
@@ -281,6 +285,40 @@ def run_gated(dep, prefix, during):
   return obs, state
 
 
+ALGO_OPS = [('suggest', 2, 'a'), ('suggest', 1, 'b'), ('complete', 1, 'm'), ('complete', 2, 'm'), ('delete_trial', 1), ('delete_trial', 2), ('delete_trial', 3)]
+
+
+def algo_shard(task):
+  """Client programs against a study served by a shipped, deterministic, stateful algorithm (GRID_SEARCH): its policy keeps
+  its state in the study metadata and fetches trials from the service by id, which the scripted policy never does."""
+  from vfw import svc
+  svc.install_clock()
+  vios, n = {}, 0
+  outcomes = set()
+  for prog in task['programs']:
+    n += 1
+    deps = deployments([tuple(d) for d in task['deployments']], real=True)
+    results = [run_program(d, prog, task['algorithm']) for d in deps]
+    o0, s0 = results[0]
+    outcomes.add(repr(o0)[:300])
+    for d, (o, s_) in zip(deps, results):
+      if any(x == ('exc', 'DOES-NOT-RETURN') for x in o):
+        sig = 'C08|promise:call-returns|%s' % d.mode
+        vios.setdefault(sig, {'sig': sig, 'desc': '[%s] %s program %s: %s' % (d.name, task['algorithm'], list(prog), o), 'case': {'algo': task['algorithm'], 'prog': [list(x) for x in prog]}})
+    for d, (o, s_) in zip(deps[1:], results[1:]):
+      if o != o0:
+        i = [j for j, (a, b) in enumerate(zip(o0, o)) if a != b][0]
+        sig = 'C08|algorithm:%s-differs|%s|%s-vs-%s' % ('exception-class' if 'exc' in (o[i][0], o0[i][0]) else 'return-value', prog[i][0], deps[0].mode, d.mode)
+        vios.setdefault(sig, {'sig': sig, 'desc': '%s program %s: step %d %s gives %s on %s and %s on %s' % (task['algorithm'], list(prog), i, prog[i], str(o0[i])[:160], deps[0].name, str(o[i])[:160], d.name),
+                              'case': {'algo': task['algorithm'], 'prog': [list(x) for x in prog]}})
+      elif s_ != s0 and d.db == deps[0].db:
+        d0, d1 = dict(s0), dict(s_)
+        part = [k for k in d0 if d0[k] != d1.get(k)]
+        sig = 'C08|algorithm:stored-state-differs|%s|%s-vs-%s' % ('+'.join(part), deps[0].mode, d.mode)
+        vios.setdefault(sig, {'sig': sig, 'desc': '%s program %s: stored %s differ between %s and %s' % (task['algorithm'], list(prog), part, deps[0].name, d.name), 'case': {'algo': task['algorithm'], 'prog': [list(x) for x in prog]}})
+  return {'n': n, 'violations': list(vios.values()), 'outcomes': len(outcomes)}
+
+
 def gated_shard(task):
   from vfw import svc
   svc.install_clock()
@@ -312,12 +350,12 @@ def gated_shard(task):
   return {'n': n, 'violations': list(vios.values()), 'outcomes': len(outcomes)}
 
 
-def run_program(dep, prog):
+def run_program(dep, prog, algorithm='SCRIPTED'):
   from vfw import svc
   from vizier._src.service import study_pb2
   dep.reset()
   dep.env.__init__()
-  dep.servicer.CreateStudy(svc.vs.CreateStudyRequest(parent=svc.OWNER, study=study_pb2.Study(display_name='s', study_spec=svc.spec())))
+  dep.servicer.CreateStudy(svc.vs.CreateStudyRequest(parent=svc.OWNER, study=study_pb2.Study(display_name='s', study_spec=svc.spec(algorithm))))
   obs = [run_op(dep, tuple(op)) for op in prog]
   state = svc.canon_state(dep.servicer.datastore, ('s',), ('a', 'b', 'unused'), 6, svc.CLOCK.now, 10 ** 9)
   return obs, state
@@ -416,6 +454,18 @@ def run(ctx):
     ctx.extend(r['violations'])
   cov['in_flight_programs'] = tot
   cov['in_flight_distinct_outcomes'] = outs
+  # every client program of length <= 3 (4) over 7 operations against a study served by GRID_SEARCH
+  import itertools
+  aprogs = [p for L in range(1, 4 if ctx.quick else 5) for p in itertools.product(ALGO_OPS, repeat=L) if p[0][0] == 'suggest']
+  achunks = [aprogs[i::16] for i in range(16)]
+  an = aouts = 0
+  for r in ctx.pmap('algo_shard', [{'deployments': deps[:3], 'programs': ch, 'algorithm': 'GRID_SEARCH'} for ch in achunks if ch]):
+    an += r['n']
+    aouts += r['outcomes']
+    ctx.extend(r['violations'])
+  cov['shipped_algorithm_programs'] = an
+  cov['shipped_algorithm_distinct_outcomes'] = aouts
+  tot += an
   cov['transitions'] += tot
   cov['traces_validated_against_impl'] += tot
   return cov
@@ -445,6 +495,8 @@ def _run_search(ctx, s, cfg, depth):
 
 def replay(case, ctx):
   from props import c01
+  if case.get('algo'):
+    return algo_shard({'deployments': [('local', 'ram'), ('grpc', 'ram'), ('pythia', 'ram')], 'programs': [[tuple(o) for o in case['prog']]], 'algorithm': case['algo']})['violations']
   if case.get('gated'):
     return gated_shard({'deployments': [('local', 'ram'), ('grpc', 'ram'), ('pythia', 'ram'), ('local', 'sql')],
                         'programs': [([tuple(o) for o in case['prefix']], [tuple(o) for o in case['during']])]})['violations']
